@@ -194,7 +194,7 @@ func TestVerifC11Replay(t *testing.T) {
 	for p := 0; p < c.n; p++ {
 		var pr [2]c11Addr
 		for k := 0; k < 2; k++ {
-			pr[k] = c11Addr{ip: int(toks[i]), asn: int(toks[i+1]), relayed: toks[i+2]&1 != 0, noip: toks[i+2]&2 != 0}
+			pr[k] = c11Addr{ip: int(toks[i]), asn: int(toks[i+1]), relayed: toks[i+2]&1 != 0, noip: toks[i+2]&2 != 0, mapped: toks[i+2]&4 != 0}
 			i += 3
 		}
 		c.addrs = append(c.addrs, pr)
